@@ -77,6 +77,7 @@ func (s *badgerStore) CheckAndSaveNonce(ID string, nonce int64) error {
 	}
 	key := []byte(fmt.Sprintf("vip:nonce:%s", ID))
 	return s.update(func(txn *badger.Txn) error {
+		simhook.Yield("badger.CheckAndSaveNonce.begin")
 		var lastNonce int64
 		if err := getItem(txn, key, &lastNonce); err == nil {
 			if lastNonce >= nonce {
